@@ -21,6 +21,7 @@ def run(ctx):
     storage.append_order_in_dependency(ctx, s)
     storage.offset_provenance(ctx, s)
     storage.growth_monotone(ctx, s)
+    storage.no_cached_map_pointers(ctx, s)
     storage.read_bound_by_marker(ctx, s)
     storage.delineate_minimum(ctx, s)
     from . import layout
